@@ -373,7 +373,23 @@ pub fn gen_c06(tier: &str, r: u64, ex: u64, rng: &mut Rng) -> Value {
     scenario("C06", keys, vals, steps, rng)
 }
 
+/// a well-formed UTF-8 line whose multi-byte character covers a byte offset near the end of the checksum column
+/// (offsets 60..=68: the 64 hex digits, the tab, the start of the JSON)
+fn straddle_line(rng: &mut Rng) -> Vec<u8> {
+    let n = rng.range(59, 67) as usize;
+    let mut s: String = "0123456789abcdef".chars().cycle().take(n).collect();
+    s.push(*rng.pick(&['\u{e9}', '\u{65e5}', '\u{1f980}']));
+    if rng.chance(1, 2) {
+        s.push('\t');
+    }
+    s.push_str("{\"key\":\"k\",\"integrity\":\"sha256-47DEQpj8HBSa+/TImW+5JCeuQeRkm5NMpJWZG3hSuFU=\",\"time\":1,\"size\":0}");
+    s.into_bytes()
+}
+
 fn garbage_line(rng: &mut Rng) -> Vec<u8> {
+    if rng.chance(1, 8) {
+        return straddle_line(rng);
+    }
     match rng.below(7) {
         5 | 6 => {
             // valid UTF-8 text with multi-byte characters at arbitrary byte offsets (no tab / one tab)
@@ -793,7 +809,9 @@ pub fn gen_c20(rng: &mut Rng) -> Value {
     // odd on-disk states
     let nodd = rng.below(3);
     for _ in 0..nodd {
-        let s = match rng.below(11) {
+        let s = match rng.below(13) {
+            11 => json!({"k":"env","act":"insert_line","bucket":rng.below(3),"boundary":rng.below(3),"hex":hex::encode(garbage_line(rng)),"hostile":true}),
+            12 => json!({"k":"env","act":"write_file","bucket":rng.below(3),"hex":hex::encode([b"\n".to_vec(), straddle_line(rng)].concat()),"hostile":true}),
             0 => json!({"k":"env","act":"mkdir","bucket":rng.below(3),"hostile":true}),
             1 => json!({"k":"env","act":"mkdir","content":{"val":rng.below(3),"algo":"sha256"},"hostile":true}),
             2 => json!({"k":"env","act":"write_file","path":"$C/tmp","hex":"00","hostile":true}),
